@@ -363,11 +363,51 @@ class C17(Property):
                     out.append(n)
         return out
 
+    @staticmethod
+    def _keeps_alive(a, b, depth=4):
+        """does object `a` refer to object `b` through references the garbage collector follows (strong ones: a
+        `weakref.ref` / proxy does not show its referent), in at most `depth` steps and without passing through a type,
+        module, function or frame (through which everything is reachable)?"""
+        import types
+        skip = (type, types.ModuleType, types.FunctionType, types.BuiltinFunctionType, types.MethodType, types.FrameType,
+                types.CodeType)
+        seen, level = {id(a)}, [a]
+        for _ in range(depth):
+            nxt = []
+            for o in level:
+                for r in gc.get_referents(o):
+                    if r is b:
+                        return True
+                    if id(r) in seen or isinstance(r, skip):
+                        continue
+                    seen.add(id(r))
+                    nxt.append(r)
+            level = nxt
+        return False
+
+    def _inv_refs(self, dictutils):
+        """per paired class: (x refers strongly to x.inv, x.inv refers strongly to x), read off fresh instances -
+        an empty one and a filled one; `false` as soon as one of them says so or the probe fails"""
+        out = []
+        for name in ('OneToOne', 'ManyToMany'):
+            fw = bk = True
+            try:
+                cls = getattr(dictutils, name)
+                for x in (cls(), cls([(1, 2), (3, 4)])):
+                    y = x.inv
+                    fw = fw and y is not None and self._keeps_alive(x, y)
+                    bk = bk and y is not None and self._keeps_alive(y, x)
+            except Exception:
+                fw = bk = False
+            out.append((name, bool(fw), bool(bk)))
+        return out
+
     def regen(self):
         import inspect
         from bv.common import ensure_repo_on_path
         import types
         blocked, raises, oto_own, m2m_foreign = [], '?', [], ['?']
+        inv_refs = [('OneToOne', False, False), ('ManyToMany', False, False)]
         try:
             ensure_repo_on_path()
             from boltons import dictutils
@@ -387,6 +427,7 @@ class C17(Property):
             if blocked:
                 raises = kinds.pop() if len(kinds) == 1 else '?'
             oto_own = self._own_callables(OTO, dict)
+            inv_refs = self._inv_refs(dictutils)
         except Exception as e:      # the module does not import: empty tables, the proof side does not check
             self.stats['regen_error'] = repr(e)[:200]
         # the running interpreter's dict: every method it has must be classified by the model (mutator or not)
@@ -406,7 +447,16 @@ class C17(Property):
                 '    builtin container) -/\n'
                 'def m2mForeignMutators : List String :=\n  [%s]\n\n'
                 'end C17.Generated\n') % (q(blocked), raises, q(oto_own), q(dict_methods), q(m2m_foreign))
-        return {'C17_Frozen.lean': text}
+        lb = lambda b: 'true' if b else 'false'
+        refs = ('/- GENERATED by harness/bv/props/c17.py (regen) from boltons/dictutils.py - do not edit.\n'
+                '   Per paired class, read off a freshly constructed instance `x` (evaluated, not pattern-matched): does `x`\n'
+                '   refer STRONGLY to `x.inv` (is `x.inv` among what the garbage collector can reach from `x` without passing\n'
+                '   through a type / module / function), and does `x.inv` refer strongly to `x`?  A `weakref.ref` / proxy\n'
+                '   stored on either side shows as `false`. -/\n'
+                'namespace C17.Generated\n\n'
+                'def invRefs : List (String × Bool × Bool) :=\n  [%s]\n\n'
+                'end C17.Generated\n') % ', '.join('("%s", %s, %s)' % (n, lb(f), lb(b)) for n, f, b in inv_refs)
+        return {'C17_Frozen.lean': text, 'C17_Refs.lean': refs}
 
     # ------------------------------------------------------------------ generation
     def cases(self, budget_s):
